@@ -797,6 +797,13 @@ func (t *transitiveClosure) addFieldType(field *descriptorpb.FieldDescriptorProt
 			// The field's type is excluded, so this field is also excluded.
 			return false, nil
 		}
+		if t.isMapEntryWithExcludedType(info.element, imageIndex) {
+			// The field is a map whose key or value type is excluded. A map entry
+			// cannot lose one of its two fields, so the map entry and this field
+			// are also excluded.
+			t.elements[info.element] = inclusionModeExcluded
+			return false, nil
+		}
 		err := t.addElement(info.element, referrerFile, false, imageIndex, opts)
 		if err != nil {
 			return false, err
@@ -821,6 +828,25 @@ func (t *transitiveClosure) addFieldType(field *descriptorpb.FieldDescriptorProt
 		return false, fmt.Errorf("unknown field type %d", field.GetType())
 	}
 	return true, nil
+}
+
+// isMapEntryWithExcludedType returns true if the descriptor is a synthetic map
+// entry message that has a field, the key or the value, whose type is excluded.
+func (t *transitiveClosure) isMapEntryWithExcludedType(descriptor namedDescriptor, imageIndex *imageIndex) bool {
+	message, ok := descriptor.(*descriptorpb.DescriptorProto)
+	if !ok || !message.GetOptions().GetMapEntry() {
+		return false
+	}
+	for _, field := range message.GetField() {
+		if field.GetTypeName() == "" {
+			continue
+		}
+		typeName := protoreflect.FullName(strings.TrimPrefix(field.GetTypeName(), "."))
+		if info, ok := imageIndex.ByName[typeName]; ok && t.elements[info.element] == inclusionModeExcluded {
+			return true
+		}
+	}
+	return false
 }
 
 func (t *transitiveClosure) addExtensions(
